@@ -379,6 +379,10 @@ where
         self.session.on_outgoing_attach(attach)
     }
 
+    fn take_flows_owed_after_attach(&mut self, handle: &OutputHandle) -> Vec<LinkFlow> {
+        self.session.take_flows_owed_after_attach(handle)
+    }
+
     fn on_outgoing_flow(&mut self, flow: LinkFlow) -> Result<SessionFrame, Self::Error> {
         self.session.on_outgoing_flow(flow)
     }
